@@ -55,6 +55,12 @@ def r5(ctx):
     from . import c04, c15
     c04.quick_timer_duration(ctx, "C04.R8")
     c15.r3(ctx)
+    # the handshake state machines admit the same frames in the same states (C09.R2), and the console-version text is split at
+    # each generation's own separator (C05.R6): the same history gives the same attributes
+    for modname_ in (AT4_API, AT5_API):
+        cases_, mr_ = c09.extract(ctx, modname_)
+        c09.r2(ctx, modname_, cases_, mr_)
+    c05.r6(ctx)
     new = ctx.obligations[before:]
     del ctx.obligations[before:]
     n_ok = 0
